@@ -1,4 +1,5 @@
 import ProductMD.Proofs.C14RoundTrip
+import ProductMD.Proofs.C14F9
 /-!
 # C14 — release identifiers round-trip; the validity predicates accept exactly the documented names
 
@@ -110,6 +111,13 @@ theorem C14_create_refuses_bp (s v t b : Str) (bv bt : Option Str) (hb : b ≠ [
   · rintro ⟨h1, h2⟩
     exact ⟨by simp [h1], h2⟩
 
+/-- in terms of the documented languages, outside the F15 region: `create_release_id` accepts exactly the
+documented names -/
+theorem C14_create_accepts_spec_partial (s v t : Str) (hs : '\n' ∉ s) (hv : '\n' ∉ v) (ht : '\n' ∉ t) :
+    (∃ id, createReleaseId s v t none none none = .ok id) ↔ SpecShort s ∧ SpecVersion v ∧ SpecType t := by
+  rw [C14_create_value, ← C14_short_partial s hs, ← C14_version_partial v hv, ← C14_type_partial t ht]
+  split <;> simp_all
+
 /-- an absent or empty `bp_short` means "no base product" (`if bp_short:`), whatever the other two are -/
 theorem C14_create_bp_falsy (s v t : Str) (bv bt : Option Str) :
     createReleaseId s v t none bv bt = createReleaseId s v t none none none
@@ -154,6 +162,42 @@ theorem C14_F9_witness :
 theorem C14_not_injective :
     createRel ⟨"my-prod".toList, "eus".toList, GA⟩ none = createRel ⟨"my".toList, "prod".toList, "eus".toList⟩ none
     ∧ createRel ⟨"my-prod".toList, "eus".toList, GA⟩ none = .ok "my-prod-eus".toList := by decide +kernel
+
+/-- F9 is the whole region, not a few unlucky inputs: for ANY release whose short name contains a dash and whose
+type is `ga` (no validity assumption at all), creating and parsing does not give the parts back -/
+theorem C14_F9_region (r : Rel) (hs : '-' ∈ r.short) (ht : r.type = GA) :
+    createRel r none >>= parseReleaseId ≠ .ok (r, none) := by
+  have hc : createRel r none = createPart r.short r.version r.type := createReleaseId_nobp _ _ _
+  rw [hc, createPart_eq]
+  split
+  · show parseReleaseId (r.short ++ '-' :: r.version) ≠ .ok (r, none)
+    unfold parseReleaseId
+    split
+    · split
+      · split
+        · simp
+        · split <;> simp
+      · simp
+    · cases hp : parseReleaseIdPart (r.short ++ '-' :: r.version) with
+      | error e => simp
+      | ok r' =>
+        simp only [ne_eq, Except.ok.injEq, Prod.mk.injEq, and_true]
+        intro e
+        subst e
+        exact parsePart_dashed_ga hs _ ⟨rfl, rfl⟩ hp
+  · intro h; cases h
+
+/-- hence, on what the code accepts (known type, version free of `-` and `@`), the round trip holds exactly
+outside the F9 region -/
+theorem C14_roundtrip_iff (r : Rel) (h1 : isValidReleaseShort r.short = true)
+    (h2 : isValidReleaseVersion r.version = true) (h3 : isValidReleaseType r.type = true)
+    (h4 : r.type ∈ Gen.RELEASE_TYPES) (h5 : '-' ∉ r.version) (h6 : '@' ∉ r.version) :
+    createRel r none >>= parseReleaseId = .ok (r, none) ↔ (r.type = GA → '-' ∉ r.short) := by
+  constructor
+  · intro h ht hs
+    exact C14_F9_region r hs ht h
+  · intro hga
+    exact roundtrip C14_types_suffix_free r none ⟨h1, h2, h3, h4, h5, h6, hga⟩ (by intro b hb; cases hb)
 
 /-- the other two hypotheses are forced as well: a dash or an `@` inside an accepted (free-form) version -/
 theorem C14_version_dash_witness :
